@@ -44,8 +44,9 @@ import RV.Base.Proto
     ing g cps                   -> `_insert_named_graph(text, <g>)` as modelled in RV/C20/Rewrite.lean (code points)
 
   Transport layer (RV/C20/Conn.lean).
-    conn method qpath upath fmt extra auth
-                                -> ok      (connector configuration: GET|POST|POST_FORM, the two endpoint URLs (code
+    conn method qpath upath fmt extra auth ca
+                                -> ok      (ca = the store's `context_aware` flag: the graph of every later command goes
+                                   through `_is_contextual` as modelled in RV/C20/Conn.lean; connector configuration: GET|POST|POST_FORM, the two endpoint URLs (code
                                    points), returnFormat, extra = 0..3 (bit 0: params={"x-extra":"1"}, bit 1:
                                    headers={"X-Extra":"1"}), auth = `-` or the Authorization value (code points))
     nop method:M | nop format:F -> ok      (the `method` property / `returnFormat` attribute switched mid-history)
@@ -142,6 +143,8 @@ structure St where
   /-- the endpoint's answer to the query of the last operation (`none` = not modelled) -/
   lastAns : Option (Option Res.Result) := none
   fmt : String := "xml"
+  /-- `context_aware` -/
+  ca : Bool := true
   conn : Conn := ⟨.GET, [], [], [], [], []⟩
 
 def cps? (w : String) : Option Str :=
@@ -468,6 +471,17 @@ def zip3 : List (Bool × GName) → List (Option Str) → List ((Bool × GName) 
 def showBytes (bs : List Nat) : String :=
   if bs.isEmpty then "_" else ",".intercalate (bs.map toString)
 
+
+/-- the graph a command names, through `_is_contextual`: a store call with that graph object as context addresses the
+    named graph only when the store is context aware and the identifier is not the dataset's default-graph id -/
+def mapG (st : St) : GName → GName
+  | none => none
+  | some n =>
+    let iri := ((st.gvocab.find? (·.1 == n)).map (·.2)).getD ['?']
+    if isContextual st.ca (.graph iri) then some n else none
+
+def ctxG (st : St) (w : String) : Option GName := (gname? w).map (mapG st)
+
 def step (st : St) : List String → St × String
   | ["reset", a, d, h, ro] =>
     match flag? a, flag? d, flag? h, flag? ro with
@@ -513,34 +527,34 @@ def step (st : St) : List String → St × String
     | some n => ({ st with r := { st.r with ep := { st.r.ep with graphs := sinsert st.r.ep.graphs n } } }, "ok")
     | none => (st, "bad-op")
   | ["add", a, b, c, g] => doOp st (do
-      let t ← triple? a b c; let g ← gname? g; pure (.write (.add t g)))
-  | "addN" :: rest => doOp st (do let qs ← quads? rest; pure (.write (.addN qs)))
+      let t ← triple? a b c; let g ← ctxG st g; pure (.write (.add t g)))
+  | "addN" :: rest => doOp st (do let qs ← quads? rest; pure (.write (.addN (qs.map (fun q => (q.1, mapG st q.2))))))
   | ["remove", a, b, c, g] => doOp st (do
       let p ← pat? a b c
       if g = "*" then pure (.write (.remove p .all))
-      else let g ← gname? g; pure (.write (.remove p (.one g))))
-  | ["rgraph", g] => doOp st (do let g ← gname? g; pure (.write (.removeGraph g)))
+      else let g ← ctxG st g; pure (.write (.remove p (.one g))))
+  | ["rgraph", g] => doOp st (do let g ← ctxG st g; pure (.write (.removeGraph g)))
   | ["cgraph", g] => doOp st (do let n ← g.toNat?; pure (.write (.addGraph n)))
   | "update" :: g :: rest => doOp st (do
-      let g ← gname? g; let us ← lops? (rest.length + 1) rest; pure (.write (.update g us)))
+      let g ← ctxG st g; let us ← lops? (rest.length + 1) rest; pure (.write (.update g us)))
   | ["commit"] => doOp st (some .commit)
   | ["rollback"] => doOp st (some .rollback)
   | ["triples", a, b, c, g] => doOp st (do
-      let p ← pat? a b c; let g ← gname? g; pure (.read (.triples p g)))
-  | ["len", g] => doOp st (do let g ← gname? g; pure (.read (.len g)))
+      let p ← pat? a b c; let g ← ctxG st g; pure (.read (.triples p g)))
+  | ["len", g] => doOp st (do let g ← ctxG st g; pure (.read (.len g)))
   | ["contains", a, b, c, g] => doOp st (do
-      let p ← pat? a b c; let g ← gname? g; pure (.read (.contains p g)))
+      let p ← pat? a b c; let g ← ctxG st g; pure (.read (.contains p g)))
   | ["contexts"] => doOp st (some (.read (.contexts none)))
   | ["contexts", a, b, c] => doOp st (do let t ← triple? a b c; pure (.read (.contexts (some t))))
   | ["namedquads"] => doOp st (some (.read .namedQuads))
   | ["opaque"] => doOp st (some (.read .opaque))
   | ["slice", a, b, c, g, l, f] =>
-    match pat? a b c, gname? g, optNatDash? l, optNatDash? f with
+    match pat? a b c, ctxG st g, optNatDash? l, optNatDash? f with
     | some p, some g, some l, some f => runOp st (.read .opaque) (some (p, g, l, f, none))
     | _, _, _, _ => (st, "bad-op")
   | ["slice", a, b, c, g, l, f, ob] =>
     -- ob: `-` = no "ORDER BY" attribute, `x` = attribute set to something that is no variable, s|p|o = that variable
-    match pat? a b c, gname? g, optNatDash? l, optNatDash? f with
+    match pat? a b c, ctxG st g, optNatDash? l, optNatDash? f with
     | some p, some g, some l, some f =>
       let obv : Option (Option (Option Pos)) :=
         if ob = "-" then some none else if ob = "x" then some (some none) else (posOf? ob).map some
@@ -548,10 +562,11 @@ def step (st : St) : List String → St × String
       | some o => runOp st (.read .opaque) (some (p, g, l, f, o))
       | none => (st, "bad-op")
     | _, _, _, _ => (st, "bad-op")
-  | ["conn", m, qp, up, fmt, ex, au] =>
-    match cmethod? m, cps? qp, cps? up, ex.toNat?, optCps? au with
-    | some m, some qp, some up, some ex, some au => ({ st with conn := mkConn m qp up fmt ex au, fmt := fmt }, "ok")
-    | _, _, _, _, _ => (st, "bad-op")
+  | ["conn", m, qp, up, fmt, ex, au, ca] =>
+    match cmethod? m, cps? qp, cps? up, ex.toNat?, optCps? au, flag? ca with
+    | some m, some qp, some up, some ex, some au, some ca =>
+      ({ st with conn := mkConn m qp up fmt ex au, fmt := fmt, ca := ca }, "ok")
+    | _, _, _, _, _, _ => (st, "bad-op")
   | ["sentres"] => (st, showAns st)
   | ["senthttp"] =>
     (st, if st.lastReq.isEmpty then "-"
